@@ -62,6 +62,18 @@ def spell(x, kind):
             return f"{x.numerator}/{x.denominator}"
     if kind == 'f':
         return float(x)
+    if kind == 'D0':        # decimal holding trailing fractional zeros
+        try:
+            d = Decimal(x)
+        except ValueError:
+            return None
+        return Decimal(d, d.precision + 3)
+    if kind == 's0':
+        try:
+            return str(Decimal(x)) + ('00' if '.' in str(Decimal(x))
+                                      else '.00')
+        except ValueError:
+            return None
     raise ValueError(kind)
 
 
@@ -371,7 +383,7 @@ def run(tier, seed):
     total = Stats()
     main_pair = [('EUR', 'USD')]
     all_pairs = [(a, b) for a in CUR for b in CUR]
-    kinds_m = ['i', 'D', 'F', 's']
+    kinds_m = ['i', 'D', 'F', 's', 'D0', 's0']
     kinds_t = ['D', 'F', 'f', 's']
     mults = POW10 + OTHER_INT + BAD_MULT
     parts = [([m], main_pair) for m in mults]
